@@ -36,7 +36,9 @@ EDGE = [-0.0, 1e-300, 1e300, 5e-324, 1e16, 1.5e-07, 123456789.125, -1e-05, compl
 EDGE_PAIRS = [([[0.0, 1.0]], [[-0.0, 1.0]]), ([[1, 0], [0, 1]], [[1.0, 0.0], [0.0, 1.0]]), ([[0.0, 0.0]], [[0, 0]]), ([[1.0, 2.0]], [[1 + 0j, 2 + 0j]]),
               ([[1, 0, 0, 1]], [[1, 0], [0, 1]]), ([[-0.0]], [[0.0]]),
               ([[10 * r + c for c in range(10)] for r in range(10)], [[0.5 * r - c for c in range(10)] for r in range(12)]),
-              ([[1.5] * 101], [[complex(r, -r)] for r in range(100)])]
+              ([[1.5] * 101], [[complex(r, -r)] for r in range(100)]),
+              ([[0.5 * c for c in range(1001)]], [[31 * r + c for c in range(31)] for r in range(33)]),
+              ([[complex(r, c) for c in range(40)] for r in range(26)], [[r] for r in range(1200)])]
 
 # the same array values in other memory layouts (transposed / reversed / Fortran-ordered views): what is serialised is the
 # array's *contents*, row by row.  (Object arrays that mix SymPy expressions with numbers are not among the supported values
